@@ -14,6 +14,7 @@ import (
 	"sort"
 	"strings"
 
+	"github.com/pentops/j5/gen/j5/ext/v1/ext_j5pb"
 	"github.com/pentops/j5/gen/j5/list/v1/list_j5pb"
 	"github.com/pentops/j5/gen/j5/schema/v1/schema_j5pb"
 	"github.com/pentops/j5/lib/j5schema"
@@ -24,6 +25,7 @@ import (
 	"google.golang.org/protobuf/reflect/protodesc"
 	"google.golang.org/protobuf/reflect/protoreflect"
 	"google.golang.org/protobuf/types/descriptorpb"
+	"google.golang.org/protobuf/types/known/timestamppb"
 
 	"verifharness/vh"
 )
@@ -140,6 +142,9 @@ func (t FTy) toProto(env EnumEnv) *schema_j5pb.Field {
 		if l != nil {
 			f.ListRules = &list_j5pb.FloatRules{Filtering: filtering(l), Sorting: sorting(l)}
 		}
+		if t.FloatR {
+			f.Rules = &schema_j5pb.FloatField_Rules{Minimum: ptr(1.5)}
+		}
 		return &schema_j5pb.Field{Type: &schema_j5pb.Field_Float{Float: f}}
 	case TDate:
 		f := &schema_j5pb.DateField{}
@@ -161,6 +166,15 @@ func (t FTy) toProto(env EnumEnv) *schema_j5pb.Field {
 		return &schema_j5pb.Field{Type: &schema_j5pb.Field_Decimal{Decimal: f}}
 	case TTimestamp:
 		f := &schema_j5pb.TimestampField{}
+		if r := t.TS; r != nil {
+			f.Rules = &schema_j5pb.TimestampField_Rules{ExclusiveMinimum: r.XMin, ExclusiveMaximum: r.XMax}
+			if r.Min != nil {
+				f.Rules.Minimum = &timestamppb.Timestamp{Seconds: *r.Min}
+			}
+			if r.Max != nil {
+				f.Rules.Maximum = &timestamppb.Timestamp{Seconds: *r.Max}
+			}
+		}
 		if l != nil {
 			f.ListRules = &list_j5pb.TimestampRules{Filtering: filtering(l), Sorting: sorting(l)}
 		}
@@ -172,10 +186,17 @@ func (t FTy) toProto(env EnumEnv) *schema_j5pb.Field {
 		}
 		return &schema_j5pb.Field{Type: &schema_j5pb.Field_Any{Any: f}}
 	case TObject:
-		return &schema_j5pb.Field{Type: &schema_j5pb.Field_Object{Object: &schema_j5pb.ObjectField{
-			Schema: &schema_j5pb.ObjectField_Ref{Ref: &schema_j5pb.Ref{Package: "foo.v1", Schema: "Bar"}}, Flatten: t.Flatten}}}
+		of := &schema_j5pb.ObjectField{
+			Schema: &schema_j5pb.ObjectField_Ref{Ref: &schema_j5pb.Ref{Package: "foo.v1", Schema: t.refName()}}, Flatten: t.Flatten}
+		if r := t.ObjR; r != nil {
+			of.Rules = &schema_j5pb.ObjectField_Rules{MinProperties: r.Min, MaxProperties: r.Max}
+		}
+		return &schema_j5pb.Field{Type: &schema_j5pb.Field_Object{Object: of}}
 	case TOneof:
-		f := &schema_j5pb.OneofField{Schema: &schema_j5pb.OneofField_Ref{Ref: &schema_j5pb.Ref{Package: "foo.v1", Schema: "Choice"}}}
+		f := &schema_j5pb.OneofField{Schema: &schema_j5pb.OneofField_Ref{Ref: &schema_j5pb.Ref{Package: "foo.v1", Schema: t.refName()}}}
+		if t.OneofR {
+			f.Rules = &schema_j5pb.OneofField_Rules{}
+		}
 		if l != nil {
 			f.ListRules = &list_j5pb.OneofRules{Filtering: filtering(l)}
 		}
@@ -276,7 +297,7 @@ func ftyFromProto(f *schema_j5pb.Field) (FTy, bool) {
 		if t.Float.Format != schema_j5pb.FloatField_FORMAT_FLOAT32 && t.Float.Format != schema_j5pb.FloatField_FORMAT_FLOAT64 {
 			return FTy{}, false
 		}
-		return FTy{Kind: TFloat, F64: t.Float.Format == schema_j5pb.FloatField_FORMAT_FLOAT64, List: lpayFromMsg(t.Float.ListRules)}, true
+		return FTy{Kind: TFloat, F64: t.Float.Format == schema_j5pb.FloatField_FORMAT_FLOAT64, FloatR: t.Float.Rules != nil, List: lpayFromMsg(t.Float.ListRules)}, true
 	case *schema_j5pb.Field_Date:
 		out := FTy{Kind: TDate, List: lpayFromMsg(t.Date.ListRules)}
 		if r := t.Date.Rules; r != nil {
@@ -290,13 +311,34 @@ func ftyFromProto(f *schema_j5pb.Field) (FTy, bool) {
 		}
 		return out, true
 	case *schema_j5pb.Field_Timestamp:
-		return FTy{Kind: TTimestamp, List: lpayFromMsg(t.Timestamp.ListRules)}, true
+		out := FTy{Kind: TTimestamp, List: lpayFromMsg(t.Timestamp.ListRules)}
+		if r := t.Timestamp.Rules; r != nil {
+			out.TS = &TSRules{XMin: r.ExclusiveMinimum, XMax: r.ExclusiveMaximum}
+			if r.Minimum != nil {
+				out.TS.Min = ptr(r.Minimum.Seconds)
+			}
+			if r.Maximum != nil {
+				out.TS.Max = ptr(r.Maximum.Seconds)
+			}
+		}
+		return out, true
 	case *schema_j5pb.Field_Any:
 		return FTy{Kind: TAny, AnyOD: t.Any.OnlyDefined, AnyT: t.Any.Types, List: lpayFromMsg(t.Any.ListRules)}, true
 	case *schema_j5pb.Field_Object:
-		return FTy{Kind: TObject, Flatten: t.Object.Flatten}, true
+		out := FTy{Kind: TObject, Flatten: t.Object.Flatten}
+		if ref := t.Object.GetRef(); ref != nil && ref.Package == "foo.v1" && ref.Schema != "Bar" {
+			out.Ref = ref.Schema // (anything unexpected fails the rebuild check in propFromProto)
+		}
+		if r := t.Object.Rules; r != nil {
+			out.ObjR = &ObjRules{Min: r.MinProperties, Max: r.MaxProperties}
+		}
+		return out, true
 	case *schema_j5pb.Field_Oneof:
-		return FTy{Kind: TOneof, List: lpayFromMsg(t.Oneof.ListRules)}, true
+		out := FTy{Kind: TOneof, OneofR: t.Oneof.Rules != nil, List: lpayFromMsg(t.Oneof.ListRules)}
+		if ref := t.Oneof.GetRef(); ref != nil && ref.Package == "foo.v1" && ref.Schema != "Choice" {
+			out.Ref = ref.Schema
+		}
+		return out, true
 	}
 	return FTy{}, false
 }
@@ -404,6 +446,23 @@ func normProp(env EnumEnv, p Prop) Prop {
 			}
 			t.Entity = &n
 		}
+	case TTimestamp:
+		if r := t.TS; r != nil {
+			n := &TSRules{Min: r.Min, Max: r.Max}
+			if r.Min != nil && isTrue(r.XMin) {
+				n.XMin = ptr(true)
+			}
+			if r.Max != nil && isTrue(r.XMax) {
+				n.XMax = ptr(true)
+			}
+			t.TS = n
+		}
+	case TObject:
+		if r := t.ObjR; r != nil && r.Min == nil && r.Max == nil {
+			t.ObjR = nil // rules without content: present = absent
+		}
+	case TOneof:
+		t.OneofR = false // OneofField.Rules has no fields
 	}
 	q.T = t
 	// the reader reports (empty) array rules whenever the field carries a repeated
@@ -432,6 +491,12 @@ func itemsCarryConstraint(t FTy) bool {
 		return true
 	case TKey:
 		return t.KF != KNone
+	case TTimestamp:
+		return t.TS != nil
+	case TObject:
+		return t.ObjR != nil
+	case TOneof:
+		return t.OneofR
 	}
 	return false
 }
@@ -718,7 +783,7 @@ func runC04(cfg *vh.Config) error {
 	res := vh.NewResult("C04", cfg.Seed)
 	res.Rule = "objects of 2-7 properties over every field type (integer x4, string, bytes, bool, enum, key x5 formats with entity keys, float x2, date, decimal, timestamp, any, object (flatten), oneof), each plain / required / optional / array (rules, singleForm) / map, every validation rule absent / zero / boundary, both values of every boolean, list rules (filtering, default filters, sorting, default sort, searching), descriptions; non-trivial = distinct property declaration carrying at least one rule, flag, format or annotation"
 	cf := &vh.CasesFile{
-		Header: "From Coq Require Import String List NArith ZArith.\nFrom J5V.lib Require Import Outcome.\nFrom J5V.model Require Import RulesDecl RulesRead RulesEnum RulesReadCorr.",
+		Header: "From Coq Require Import String List NArith ZArith.\nFrom J5V.lib Require Import Outcome.\nFrom J5V.model Require Import ProtoPrintLit ProtoPrint ProtoPrintFile.\nFrom J5V.model Require Import RulesDecl RulesRead RulesEnum RulesReadCorr.",
 		Type:   "c04case",
 		Check:  "c04_check",
 	}
@@ -741,7 +806,7 @@ func runC04(cfg *vh.Config) error {
 		}
 		var props []genDecl
 		for i, n := 0, r.Range(2, 7); i < n; i++ {
-			gd := genProp04(r, fmt.Sprintf("f%d", i), env)
+			gd := genProp04(r, propName(r, i), env)
 			if gd.Class == "compile-error" {
 				continue // compile failures are C12's stream
 			}
@@ -828,6 +893,75 @@ func runC04(cfg *vh.Config) error {
 		res.Cases = append(res.Cases, vh.CaseRec{Case: caseNo, Stream: "object", Input: input, Impl: map[string]any{"reflected": protoString(mem.obj), "error": fmt.Sprint(mem.err), "panic": fmt.Sprint(mem.panic)}})
 		res.Sample(map[string]any{"j5s": src, "reflected": protoString(mem.obj)}, 3)
 
+		// ---- the head of the root schema: kind, name, description
+		{
+			kindTerm := map[string]string{"object": "RObject", "oneof": "ROneof"}
+			obsOpt := "None"
+			if mo, ok := proto.GetExtension(md.Options(), ext_j5pb.E_Message).(*ext_j5pb.MessageOptions); ok && mo != nil {
+				switch mo.Type.(type) {
+				case *ext_j5pb.MessageOptions_Object:
+					obsOpt = "(Some RObject)"
+				case *ext_j5pb.MessageOptions_Oneof:
+					obsOpt = "(Some ROneof)"
+				}
+			}
+			reflHead := "None"
+			if mem.obj != nil {
+				rk := "RObject"
+				if mem.isOneof {
+					rk = "ROneof"
+				}
+				reflHead = fmt.Sprintf("(Some (%s, %s, %s))", rk, vh.BytesTerm(mem.obj.Name), vh.BytesTerm(mem.obj.Description))
+			}
+			if mem.obj != nil { // (an object that does not reflect because of a property is reported below)
+				cf.Terms = append(cf.Terms, fmt.Sprintf("C04Root %s %s %s %s %s %s %s", kindTerm[kind], vh.BytesTerm("Foo"), vh.BytesTerm(objDesc),
+					vh.BytesTerm(string(md.Name())), vh.BytesTerm(declaredComment(md)), obsOpt, reflHead))
+				res.Cases = append(res.Cases, vh.CaseRec{Case: caseNo, Stream: "root", Input: input, Impl: map[string]any{"reflected_head": reflHead}})
+				res.Count("root")
+			}
+		}
+
+		// ---- the decoder of the text clause: each compiled field as a descriptor of the file
+		// model (option trees as the printer walks them) vs the annotation record dumped above
+		for i := range props {
+			dt, err := dfieldTerm(md.Fields().Get(i))
+			if err != nil {
+				res.Count("view-skipped")
+				continue
+			}
+			cf.Terms = append(cf.Terms, fmt.Sprintf("C04View %s %s", dt, outs[i]))
+			res.Cases = append(res.Cases, vh.CaseRec{Case: caseNo, Stream: "view", Input: map[string]any{"j5s": props[i].P.J5S(env)}, Impl: map[string]any{"annotations": outs[i]}})
+			res.Count("view")
+		}
+
+		// ---- the whole file through the models of the text path: print -> parse -> decode ->
+		// read in Coq vs the real reflector on the really printed and re-parsed text; and the
+		// descriptor-side hypotheses of C04_text_checked evaluated on the real descriptor
+		if txt.panic == nil && (txt.obj != nil || txt.err != nil) && !strings.HasPrefix(fmt.Sprint(txt.err), "print:") && !strings.HasPrefix(fmt.Sprint(txt.err), "parse printed text:") {
+			dterm, unsupported := dfileDump(c.file)
+			if unsupported != "" {
+				res.Count("file-outside-model")
+			} else {
+				textRefl := `(Err "reflect")`
+				if txt.obj != nil {
+					var terms []string
+					for _, rp := range txt.obj.Properties {
+						ap, ok := propFromProto(env, rp)
+						if !ok || len(rp.ProtoField) != 1 {
+							terms = append(terms, "None")
+							res.Count("text-reflected-unrepresentable")
+							continue
+						}
+						terms = append(terms, fmt.Sprintf("(Some (RP %s [%d]))", ap.Coq(), rp.ProtoField[0]))
+					}
+					textRefl = "(Ok [" + strings.Join(terms, ";") + "])"
+				}
+				cf.Terms = append(cf.Terms, fmt.Sprintf("C04File %s %s %s %s %s", env.Coq(), impDump(c.file), dterm, vh.BytesTerm("Foo"), textRefl))
+				res.Cases = append(res.Cases, vh.CaseRec{Case: caseNo, Stream: "file", Input: map[string]any{"j5s": src, "proto": text}, Impl: map[string]any{"reflected_from_text": protoString(txt.obj), "error": fmt.Sprint(txt.err)}})
+				res.Count("file")
+			}
+		}
+
 		// ---- the enum as a root schema: declared vs compiled vs reflected
 		ed := c.file.Enums().ByName(protoreflect.Name(env.Name))
 		if ed == nil {
@@ -836,9 +970,19 @@ func runC04(cfg *vh.Config) error {
 			var vals []string
 			for i := 0; i < ed.Values().Len(); i++ {
 				v := ed.Values().Get(i)
-				vals = append(vals, fmt.Sprintf("(%s, (%d)%%Z, %s)", vh.BytesTerm(string(v.Name())), v.Number(), vh.BytesTerm(declaredComment(v))))
+				var vinfo map[string]string
+				if x, ok := proto.GetExtension(v.Options(), ext_j5pb.E_EnumValue).(*ext_j5pb.EnumValueOptions); ok && x != nil {
+					vinfo = x.Info
+				}
+				vals = append(vals, fmt.Sprintf("(%s, (%d)%%Z, %s, %s)", vh.BytesTerm(string(v.Name())), v.Number(), vh.BytesTerm(declaredComment(v)), infoTerm(vinfo)))
 			}
-			obsEnum := fmt.Sprintf("(EO %s [%s])", vh.BytesTerm(declaredComment(ed)), strings.Join(vals, ";"))
+			var efields [][3]string
+			if x, ok := proto.GetExtension(ed.Options(), ext_j5pb.E_Enum).(*ext_j5pb.EnumOptions); ok && x != nil {
+				for _, f := range x.InfoFields {
+					efields = append(efields, [3]string{f.Name, f.Label, f.Description})
+				}
+			}
+			obsEnum := fmt.Sprintf("(EO %s [%s] %s)", vh.BytesTerm(declaredComment(ed)), strings.Join(vals, ";"), infoFieldsTerm(efields))
 			reflEnum := `(Err "reflect")`
 			if mem.panic != nil {
 				reflEnum = `(Panic "reflect")`
@@ -846,10 +990,14 @@ func runC04(cfg *vh.Config) error {
 			if mem.enum != nil {
 				var ros []string
 				for _, o := range mem.enum.Options {
-					ros = append(ros, fmt.Sprintf("(%s, (%d)%%Z, %s)", vh.BytesTerm(o.Name), o.Number, vh.BytesTerm(o.Description)))
+					ros = append(ros, fmt.Sprintf("(%s, (%d)%%Z, %s, %s)", vh.BytesTerm(o.Name), o.Number, vh.BytesTerm(o.Description), infoTerm(o.Info)))
 				}
-				reflEnum = fmt.Sprintf("(Ok (RE %s %s [%s]))", vh.BytesTerm(mem.enum.Description), vh.BytesTerm(mem.enum.Prefix), strings.Join(ros, ";"))
-				if mem.enum.Name != env.Name || len(mem.enum.Info) != 0 || optionInfo(mem.enum) {
+				var rfields [][3]string
+				for _, f := range mem.enum.Info {
+					rfields = append(rfields, [3]string{f.Name, f.Label, f.Description})
+				}
+				reflEnum = fmt.Sprintf("(Ok (RE %s %s [%s] %s))", vh.BytesTerm(mem.enum.Description), vh.BytesTerm(mem.enum.Prefix), strings.Join(ros, ";"), infoFieldsTerm(rfields))
+				if mem.enum.Name != env.Name {
 					reflEnum = `(Err "outside the model")`
 				}
 				// direct oracle: the declared enum
@@ -1071,6 +1219,9 @@ func asymmetryClasses(p genDecl) []asymmetry {
 	if p.P.PK == PMap && p.P.T.List != nil {
 		add("C04 map: list rules of the item schema are written on the entry's value field and not read back", item+"."+itemTypeName[t.Kind]+".listRules")
 	}
+	if t.Kind == TObject && t.ObjR != nil && (t.ObjR.Min != nil || t.ObjR.Max != nil) {
+		add("C04 object rules: minProperties / maxProperties compile to an empty (buf.validate.field) and are not read back", item+".object.rules")
+	}
 	switch {
 	case t.Kind == TStr && t.SFormat != nil:
 		add("C04 string format: StringField.format is not written to the descriptor and does not read back", item+".string.format")
@@ -1090,6 +1241,8 @@ func asymmetryClasses(p genDecl) []asymmetry {
 		add("C04 array of key without format: (j5.ext.v1.field) is the array's, the items read back as string", item+".key", item+".string")
 	case (t.Kind == TDate || t.Kind == TDecimal) && t.Txt != nil && p.P.PK != PSingle:
 		add("C04 array of date/decimal with rules: the rules live in (j5.ext.v1.field), which the array annotation overwrites", item+".date.rules", item+".decimal.rules")
+	case t.Kind == TTimestamp && t.TS != nil && (t.TS.Min != nil || t.TS.Max != nil):
+		add("C04 timestamp rules: the bounds are never written (fields.go: \"None Implemented\"), they read back empty", item+".timestamp.rules")
 	case t.Kind == TObject && t.Flatten && p.P.PK != PSingle:
 		add("C04 array of flattened object: flatten lives in (j5.ext.v1.field), which the array annotation overwrites", item+".object.flatten")
 	}
@@ -1135,25 +1288,20 @@ func allUnder(paths, prefixes []string) bool {
 	return len(paths) > 0
 }
 
-func optionInfo(e *schema_j5pb.Enum) bool {
-	for _, o := range e.Options {
-		if len(o.Info) != 0 {
-			return true
-		}
-	}
-	return false
-}
 
 // expectedEnum: the schema_j5pb.Enum a declaration denotes (mirrors norm_enum)
 func expectedEnum(env EnumEnv) *schema_j5pb.Enum {
 	out := &schema_j5pb.Enum{Name: env.Name, Description: env.Desc, Prefix: env.Prefix}
-	out.Options = append(out.Options, &schema_j5pb.Enum_Option{Name: "UNSPECIFIED", Number: 0, Description: env.UnspecDesc})
+	for _, f := range env.InfoFields {
+		out.Info = append(out.Info, &schema_j5pb.Enum_OptionInfoField{Name: f[0], Label: f[1], Description: f[2]})
+	}
+	out.Options = append(out.Options, &schema_j5pb.Enum_Option{Name: "UNSPECIFIED", Number: 0, Description: env.UnspecDesc, Info: env.UnspecInfo})
 	for i, o := range env.Options {
 		d := ""
 		if i < len(env.OptDescs) {
 			d = env.OptDescs[i]
 		}
-		out.Options = append(out.Options, &schema_j5pb.Enum_Option{Name: strings.TrimPrefix(o, env.Prefix), Number: int32(i + 1), Description: d})
+		out.Options = append(out.Options, &schema_j5pb.Enum_Option{Name: strings.TrimPrefix(o, env.Prefix), Number: int32(i + 1), Description: d, Info: env.optInfo(i)})
 	}
 	return out
 }
